@@ -211,6 +211,7 @@ PinOptionFields == {"mode", "rmin", "rmax", "name", "shard", "ualloc", "expire",
 CmpFields(rec, fmt, v) ==
     IF rec = "Pin" /\ fmt = "query" THEN PinOptionFields
     ELSE IF rec = "GlobalPinInfo" /\ v.pm = <<>> THEN {"cid", "name", "pm"}
+    ELSE IF rec = "Metric" /\ fmt = "pubsub-live" THEN DOMAIN MetricDom \ {"received"}
     ELSE DOMAIN Dom(rec)
 
 \* the fields a format may change at all (everything else is the identity)
@@ -259,6 +260,24 @@ BadFields(r) ==
 (*         fmt = "export-real"  the cmdutils state manager of a Raft peer: *)
 (*         ExportState of one peer's snapshot, ImportState into another    *)
 (*         peer's (empty) data folder, offline read of the result;         *)
+(*         fmt = "raftlog-fsm"  DECODE INTO A REUSED TARGET: the items are  *)
+(*         committed one after the other as msgpack LogOps through the     *)
+(*         real go-libp2p-raft FSM that consensus/raft builds, which       *)
+(*         decodes every entry into the same LogOp object (ApplyTo has to  *)
+(*         detach the pin); one FSM lives for the whole run, every case    *)
+(*         ends by unpinning its items, so each decode happens on top of   *)
+(*         whatever the previous entries left.  Judged: the pin stored in  *)
+(*         the state (pb after msgpack = pb) and, as "raftlog-fsm-track",  *)
+(*         the pin handed to the tracker (msgpack).  The decoded value     *)
+(*         depends only on the bytes.                                      *)
+(*   rec = "Metric", fmt = "pubsub-live"  THE BYTES IN FLIGHT: the items    *)
+(*         are published back to back with the real pubsubmon.Monitor on   *)
+(*         a real two-peer gossipsub; judged is what the remote monitor    *)
+(*         and (as "pubsub-live-self") the publisher's own monitor hold    *)
+(*         afterwards: every published metric arrives (generous deadline,  *)
+(*         path re-probed before a loss counts) equal to what was          *)
+(*         published, whatever is published next.  The receiving store     *)
+(*         stamps the reception time, which is therefore not compared.     *)
 (*   any rec, fmt = msgpack | json: the list []*rec as one RPC reply /     *)
 (*         one REST body.                                                  *)
 (* Observation: ok (the whole restore/decode succeeded), got[i] = [ok,     *)
@@ -266,16 +285,22 @@ BadFields(r) ==
 (* number of restored values that belong to no slot.  Every item is judged *)
 (* like a single value, against Proj of the item stored in ITS slot.       *)
 (***************************************************************************)
-StateFormats == {"snapshot-fresh", "snapshot-nonempty", "export", "export-real"}
-ItemFmt(fmt) == CASE fmt \in {"snapshot-fresh", "snapshot-nonempty"} -> "pb" [] fmt = "export-real" -> "export" [] OTHER -> fmt
-SeqFormats(rec) == IF rec = "Pin" THEN StateFormats \cup RpcFormats ELSE RpcFormats
+StateFormats == {"snapshot-fresh", "snapshot-nonempty", "export", "export-real", "raftlog-fsm"}
+ItemFmt(fmt) == CASE fmt \in {"snapshot-fresh", "snapshot-nonempty", "raftlog-fsm"} -> "pb" [] fmt = "export-real" -> "export"
+                  [] fmt = "raftlog-fsm-track" -> "msgpack" [] fmt = "pubsub-live-self" -> "pubsub-live" [] OTHER -> fmt
+SeqFormats(rec) == CASE rec = "Pin" -> StateFormats \cup RpcFormats
+                     [] rec = "Metric" -> RpcFormats \cup {"pubsub-live"}
+                     [] OTHER -> RpcFormats
 
 \* the stale content of a non-empty target: slot i holds the value of the next slot
 Stale(items) == [i \in 1..Len(items) |-> items[(i % Len(items)) + 1]]
 
 \* values sequences are drawn from: single-field variations of every base; a decoder that refuses origins
 \* outright (known) would hide everything else in a JSON stream, so origins only travel in snapshots
-SeqPool(rec, fmt) == {v \in Values(rec, 1) : (rec = "Pin" /\ fmt \in {"export", "export-real", "msgpack", "json"}) => v.origins = <<>>}
+\* metrics that a live monitor publishes and keeps: valid and not expired
+LiveMetrics == [name: MetricDom.name, peer: MetricDom.peer, value: MetricDom.value, expire: {"max"}, valid: {"true"},
+                received: MetricDom.received]
+SeqPool(rec, fmt) == IF rec = "Metric" /\ fmt = "pubsub-live" THEN LiveMetrics ELSE {v \in Values(rec, 1) : (rec = "Pin" /\ fmt \in {"export", "export-real", "raftlog-fsm", "msgpack", "json"}) => v.origins = <<>>}
 \* all ordered pairs (equal values = equal encoded size; one-field variations = same or nearly same size;
 \* different bases = different sizes) over the variations of the minimal base and all bases
 PairPool(rec, fmt) == {v \in Singles(Dom(rec), MinBase(rec)) \cup Bases(rec) : v \in SeqPool(rec, fmt)}
@@ -284,7 +309,7 @@ PairPool(rec, fmt) == {v \in Singles(Dom(rec), MinBase(rec)) \cup Bases(rec) : v
 \* minimal base in what a stream decoder could carry over from one pin to the next
 RealPool(rec) == {v \in PairPool(rec, "export-real") :
                     v \in Bases(rec) \/ \E f \in {"meta", "name", "expire", "update", "ref", "allocs"} : v[f] # MinBase(rec)[f]}
-PairsFor(rec, fmt) == IF fmt = "export-real" THEN RealPool(rec) ELSE PairPool(rec, fmt)
+PairsFor(rec, fmt) == CASE fmt = "export-real" -> RealPool(rec) [] fmt = "pubsub-live" -> {} [] OTHER -> PairPool(rec, fmt)
 
 SeqCase(rec, fmt, items) ==
     [rec |-> rec, fmt |-> fmt, items |-> items, pre |-> IF fmt = "snapshot-nonempty" THEN Stale(items) ELSE <<>>]
